@@ -34,6 +34,17 @@ pub fn run_check(prop: &str, thorough: bool, seed: u64) -> Option<Report> {
             rep.absorb(crate::props_c10::check_c10(if thorough { 20_000 } else { 1_000 }, seed));
             Some(rep)
         }
+        "C19" => Some(check_c19(thorough, seed)),
+        "C18" => {
+            let mut rep = Report::new("C18", tier, seed, "pre-upgrade stores: state reached by a generated history (0-25 ops) with contract_info set to name x version drawn from {staking, treasury, other} x 10 version strings and one of the three MigrateMsg paths (60% of cases sit exactly on the gate); for 1.0.0->1.1.0 the packet tables are replaced by 0-40 legacy packets (all four statuses, amounts to 2^128-1, keys equal or unequal to the sequence) and 0-6 legacy pending replies written as raw JSON; for the older paths a legacy flat config with optional fields present/absent and (0.4.20->1.0.0) right or wrong prefixes in the message; treasury gate: 3 names x 9 versions. Non-trivial = a 1.1.0 store with >=2 refundable and >=1 in-flight packet, a successful older-path translation, or a refused case differing from an accepted one in exactly one of name/version/path; distinct by store hash");
+            rep.assumptions = vec![
+                "legacy layouts transcribed by hand from migrations/states/*.rs into raw JSON under raw cw-storage-plus keys".into(),
+                "a migration is one atomic transaction: the only crash behaviour is full rollback, which the refusal branch covers (stated, not simulated)".into(),
+                "operability after upgrade checked only for stores whose keys equal the packet sequence (what the 1.0.0 contract wrote) and whose refundable sum fits the amount domain".into(),
+            ];
+            rep.absorb(crate::props_c18::check_c18(if thorough { 300_000 } else { 6_000 }, seed));
+            Some(rep)
+        }
         "C14" => {
             let mut rep = Report::new("C14", tier, seed, "valid configurations from a generator (random prefixes, addresses built by the harness's own bech32 encoder, validator/monitor sets, channels over u64, denoms) with 0-3 field-level corruptions (13 fields x up to 14 corruption kinds: prefix swaps, case changes, truncation/extension, duplicates, checksum damage, bech32m, malformed channels/denoms), instantiated and then updated with every subset of sections and Add/RemoveValidator calls; non-trivial = a message differing from a valid one in exactly one field, or an accepted update of a strict subset of sections, or a validator change; distinct by case hash");
             rep.assumptions = vec![
@@ -65,7 +76,13 @@ pub fn replay(prop: &str, file: &str) -> i32 {
     };
     let case_v = v.get("case").cloned().unwrap_or(v.clone());
     if let (true, Ok(case)) = (case_v.get("setup").is_some(), serde_json::from_value::<Case>(case_v.clone())) {
+        if prop == "C19" && cfg!(feature = "miniwasm") {
+            return replay_c19(file, &case);
+        }
         let r = run_case(&case, true);
+        if prop == "C19" && !r.viol.as_ref().map(|v| v.tags.contains(&"C19")).unwrap_or(false) {
+            return replay_c19(file, &case);
+        }
         for l in &r.log {
             println!("{l}");
         }
@@ -90,6 +107,10 @@ pub fn replay(prop: &str, file: &str) -> i32 {
         "C12" => serde_json::from_value::<Vec<crate::props_treasury::OwnStep>>(case_v.clone()).ok().map(|c| crate::props_treasury::check_own_case(&c, &mut scratch)),
         "C13" => serde_json::from_value::<crate::props_treasury::TCase>(case_v.clone()).ok().map(|c| crate::props_treasury::check_tcase(&c, &mut scratch)),
         "C08" => serde_json::from_value::<crate::props_c08::C08Case>(case_v.clone()).ok().map(|c| crate::props_c08::check_c08_case(&c, &mut scratch)),
+        "C18" => match serde_json::from_value::<crate::props_c18::MigCase>(case_v.clone()) {
+            Ok(c) => Some(crate::props_c18::check_mig_case(&c, &mut scratch)),
+            Err(_) => serde_json::from_value::<crate::props_c18::TGate>(case_v.clone()).ok().map(|c| crate::props_c18::check_tgate(&c, &mut scratch)),
+        },
         "C17" => serde_json::from_value::<crate::props_c17::PageCase>(case_v.clone()).ok().map(|c| crate::props_c17::check_page_case(&c, &mut scratch)),
         "C10" => serde_json::from_value::<crate::props_c10::C10Case>(case_v.clone()).ok().map(|c| crate::props_c10::check_c10_case(&c, &mut scratch)),
         "C14" => serde_json::from_value::<crate::props_config::CfgCase>(case_v.clone()).ok().map(|c| crate::props_config::check_cfg_case(&c, &mut scratch)),
@@ -111,4 +132,102 @@ pub fn replay(prop: &str, file: &str) -> i32 {
     }
     eprintln!("replay format not recognised for {prop}");
     2
+}
+
+const MW_BIN: &str = "/verif/target-mw/release/harness";
+
+/// C19: (1) histories on this build, (2) the same on the other feature build (sub-process),
+/// (3) digest of the canonical trace of N histories computed by both binaries must agree.
+fn check_c19(thorough: bool, seed: u64) -> Report {
+    let tier = if thorough { "thorough" } else { "quick" };
+    let mut rep = Report::new("C19", tier, seed, "stake/submit-heavy histories of 15-50 ops run on the Osmosis build and on the miniwasm build (own token-factory module URL per build; message bytes decoded by the harness's protobuf reader: sender, holder, denom factory/<contract>/<subdenom>, exact amount, canonical field order); plus a differential: the canonical trace (outcomes, ledgers, supply, packets, raw storage, query results after every step) of the same generated histories computed by both binaries must be identical; non-trivial = a history with >=1 mint and >=1 burn at an exchange rate != 1; distinct by executed-op hash");
+    rep.assumptions = crate::props::history_assumptions();
+    rep.assumptions.push("the two builds are separate binaries of the same harness sources (cargo features cannot coexist in one binary); both are rebuilt from /repo's tree by ./check".into());
+    let p = crate::props_c19::profile();
+    let n_hist = if thorough { 10_000 } else { 600 };
+    rep.absorb(run_histories("C19", &p, n_hist, seed, 19, crate::props_c19::nontrivial));
+    if cfg!(feature = "miniwasm") {
+        // running as the sub-process: only the histories of this build
+        return rep;
+    }
+    if !std::path::Path::new(MW_BIN).exists() {
+        rep.agg.extra.insert("harness_error".into(), serde_json::json!("miniwasm build of the harness is missing (run ./setup.sh or ./check C19)"));
+        return rep;
+    }
+    // (2) histories on the miniwasm build
+    let out = std::process::Command::new(MW_BIN).args(["check", "C19", tier]).env("VERIF_SEED", seed.to_string()).output();
+    match out {
+        Ok(o) => {
+            let text = String::from_utf8_lossy(&o.stdout).to_string();
+            for l in text.lines().filter(|l| l.starts_with("VIOLATION") || l.starts_with("  ")) {
+                println!("[miniwasm build] {l}");
+            }
+            if o.status.code() == Some(1) {
+                rep.failures.push(Failure { message: format!("miniwasm build: {}", text.lines().filter(|l| l.starts_with("  ")).next().unwrap_or("violation")), replay: serde_json::Value::Null });
+            } else if o.status.code() != Some(0) {
+                rep.agg.extra.insert("harness_error".into(), serde_json::json!(format!("miniwasm sub-process exit {:?}", o.status.code())));
+            }
+            if let Ok(ev) = std::fs::read_to_string(format!("{VERIF}/evidence/C19.miniwasm.json")) {
+                if let Ok(v) = serde_json::from_str::<serde_json::Value>(&ev) {
+                    rep.agg.extra.insert("miniwasm_build_run".into(), serde_json::json!({
+                        "evaluations": v["coverage"]["evaluations"], "distinct_nontrivial": v["coverage"]["distinct_nontrivial"],
+                        "op_outcome_distribution": v["coverage"]["op_outcome_distribution"], "build_feature": v["coverage"]["build_feature"]}));
+                }
+            }
+        }
+        Err(e) => {
+            rep.agg.extra.insert("harness_error".into(), serde_json::json!(format!("cannot run miniwasm build: {e}")));
+        }
+    }
+    // (3) differential traces
+    let n = if thorough { 10_000 } else { 600 };
+    let cases = crate::props_c19::cases_for(seed, n);
+    let other = std::process::Command::new(MW_BIN).args(["traces", &seed.to_string(), &n.to_string()]).output();
+    let other = match other {
+        Ok(o) if o.status.success() => String::from_utf8_lossy(&o.stdout).to_string(),
+        other => {
+            rep.agg.extra.insert("harness_error".into(), serde_json::json!(format!("miniwasm traces failed: {:?}", other.map(|o| o.status))));
+            return rep;
+        }
+    };
+    let other: Vec<&str> = other.lines().collect();
+    let mut compared = 0u64;
+    for (i, c) in cases.iter().enumerate() {
+        let mine = format!("{i} {}", crate::props_c19::trace_digest(c));
+        compared += 1;
+        if other.get(i).copied() != Some(mine.as_str()) {
+            rep.failures.push(Failure {
+                message: format!("history {i}: canonical trace differs between the Osmosis and the miniwasm build (digest {mine} vs {:?}); replay prints both traces", other.get(i)),
+                replay: serde_json::to_value(c).unwrap(),
+            });
+            break;
+        }
+    }
+    rep.agg.extra.insert("differential_histories_compared".into(), serde_json::json!(compared));
+    rep
+}
+
+/// replay for C19: single-build checks, then both builds' traces side by side
+pub fn replay_c19(file: &str, case: &Case) -> i32 {
+    let mine = crate::props_c19::trace_case(case);
+    if cfg!(feature = "miniwasm") {
+        for l in mine {
+            println!("{l}");
+        }
+        return 0;
+    }
+    let other = std::process::Command::new(MW_BIN).args(["replay", "C19", file]).output();
+    let other: Vec<String> = match other {
+        Ok(o) => String::from_utf8_lossy(&o.stdout).lines().map(|s| s.to_string()).collect(),
+        Err(_) => vec![],
+    };
+    for (i, l) in mine.iter().enumerate() {
+        if other.get(i) != Some(l) {
+            println!("first difference at trace line {i}:\n  osmosis : {l}\n  miniwasm: {:?}", other.get(i));
+            println!("VIOLATION property=C19 replay={file}");
+            return 1;
+        }
+    }
+    println!("replay passed: traces of both builds identical ({} lines)", mine.len());
+    0
 }
